@@ -162,6 +162,8 @@ _Bool env_op_lt__pcE_pcE (const Elem *p, const Elem *src)
   return v2 < v;
 }
 
+#define NOT_IN_RANGE_PTR(p, lo, hi) (!SAMEOBJ (p, lo) || OFF (p) < OFF (lo) || OFF (p) >= OFF (hi))
+
 /* ---- allocator ------------------------------------------------------------------------------ */
 static Elem *do_allocate (struct Alloc *a, unsigned long n)
 {
@@ -219,3 +221,135 @@ void env_advance__ppE_l (Elem **it, long n) { *it = *it + n; }
 void env_advance__ppcE_l (const Elem **it, long n) { *it = *it + n; }
 long env_distance__pE_pE (Elem *first, Elem *last) { return last - first; }
 long env_distance__pcE_pcE (const Elem *first, const Elem *last) { return last - first; }
+
+/* ---- libstdc++ algorithms on element ranges: summaries over the watched cells ------------------
+ * std::copy / std::move / std::move_backward / std::copy_n / std::fill / std::fill_n / std::swap_ranges.
+ * Effects as [alg.copy], [alg.move], [alg.fill], [alg.swap]: element-wise assignment in index order
+ * (reverse order for move_backward); a throwing assignment stops the algorithm after `done` elements.
+ * Preconditions are the standard's plus the lifetime rules (assignment needs live source and destination). */
+static unsigned long pick_done (unsigned long n, int may_throw, _Bool *threw)
+{
+  *threw = 0;
+  if (may_throw && n != 0 && nondet_bool ())
+    { unsigned long k = nondet_ulong (); __CPROVER_assume (k < n); *threw = 1; return k; }
+  return n;
+}
+
+#define REQ_RANGE(first, last, what) do { \
+  __CPROVER_assert (SAMEOBJ (first, last) && OFF (first) <= OFF (last) && ALIGNED (OFF (last) - OFF (first)), "[C03,C13] " what ": not a valid range of element cells"); } while (0)
+#define REQ_LIVE_RANGE1(i, lo, hi) __CPROVER_assert (!(IN_PTRS (WP[i], lo, hi) && RAW (i)), "[C03] algorithm assigns to or reads from storage that holds no live element");
+
+/* assignment of n elements from [src, src+n) to [dst, dst+n); backward: last element first.
+   move: sources are left moved-from.  Returns the number of elements fully assigned. */
+static unsigned long range_assign (Elem *dst, const Elem *src, unsigned long n, int move, int backward, int may_throw, unsigned kind)
+{
+  const Elem *src_end = src + n; Elem *dst_end = dst + n;
+  __CPROVER_assert (__CPROVER_r_ok (src, n << ESZ_LOG2), "[C03,C13] algorithm reads outside the source elements' storage");
+  __CPROVER_assert (__CPROVER_w_ok (dst, n << ESZ_LOG2), "[C03,C12,C13] algorithm writes outside the destination elements' storage");
+#define RA_LIVE(i) REQ_LIVE_RANGE1 (i, src, src_end) REQ_LIVE_RANGE1 (i, dst, dst_end)
+  FORALLW (RA_LIVE)
+  if (n != 0) used_kinds |= kind;
+  _Bool threw; unsigned long done = pick_done (n, may_throw, &threw);
+  /* indices that were processed: forward [0, done), backward [n - done, n); the failing index gets an unspecified value */
+  unsigned long lo = backward ? n - done : 0, hi = backward ? n : done;
+  unsigned long bad = backward ? (n - done - 1) : done;     /* meaningful only if threw */
+  int o0 = WS[0], o1 = WS[1], o2 = WS[2];
+#define RA_NEW(i) \
+  if (IN_PTRS (WP[i], dst, dst_end) && IDX (WP[i], dst) >= lo && IDX (WP[i], dst) < hi) \
+    { int v = nondet_value (); unsigned long k = IDX (WP[i], dst); \
+      if (WP[0] == src + k) v = o0; if (WP[1] == src + k) v = o1; if (WP[2] == src + k) v = o2; \
+      WS[i] = v; } \
+  else if (threw && IN_PTRS (WP[i], dst, dst_end) && IDX (WP[i], dst) == bad) WS[i] = S_MF; \
+  else if (move && IN_PTRS (WP[i], src, src_end) && ((IDX (WP[i], src) >= lo && IDX (WP[i], src) < hi) || (threw && IDX (WP[i], src) == bad)) && !(WP[i] == dst + IDX (WP[i], src))) WS[i] = S_MF;
+  FORALLW (RA_NEW)
+  if (threw) THROW (EXC_ELEMENT);
+  return done;
+}
+
+Elem *env_copy__pcE_pcE_pE (const Elem *first, const Elem *last, Elem *d)
+{
+  REQ_RANGE (first, last, "std::copy");
+  __CPROVER_assert (NOT_IN_RANGE_PTR (d, first, last), "[C03] std::copy: destination begins inside the source range");
+  unsigned long n = DIVESZ (OFF (last) - OFF (first));
+  return d + range_assign (d, first, n, 0, 0, ASSIGN_COPY_MAY_THROW, K_ASSIGN_COPY);
+}
+Elem *env_copy__pE_pE_pE (Elem *first, Elem *last, Elem *d) { return env_copy__pcE_pcE_pE (first, last, d); }
+
+Elem *env_copy_n__pcE_ul_pE (const Elem *first, unsigned long n, Elem *d)
+{
+  return d + range_assign (d, first, n, 0, 0, ASSIGN_COPY_MAY_THROW, K_ASSIGN_COPY);
+}
+
+Elem *env_move__pE_pE_pE (Elem *first, Elem *last, Elem *d)
+{
+  REQ_RANGE (first, last, "std::move");
+  __CPROVER_assert (NOT_IN_RANGE_PTR (d, first, last), "[C03] std::move: destination begins inside the source range");
+  unsigned long n = DIVESZ (OFF (last) - OFF (first));
+  return d + range_assign (d, first, n, 1, 0, ASSIGN_MOVE_MAY_THROW, K_ASSIGN_MOVE);
+}
+
+Elem *env_move_backward__pE_pE_pE (Elem *first, Elem *last, Elem *d_last)
+{
+  REQ_RANGE (first, last, "std::move_backward");
+  __CPROVER_assert (!(SAMEOBJ (d_last, first) && OFF (d_last) > OFF (first) && OFF (d_last) <= OFF (last)), "[C03] std::move_backward: destination end inside (first, last]");
+  unsigned long n = DIVESZ (OFF (last) - OFF (first));
+  unsigned long done = range_assign (d_last - n, first, n, 1, 1, ASSIGN_MOVE_MAY_THROW, K_ASSIGN_MOVE);
+  return d_last - done;
+}
+
+/* fill: every element of [first, last) is assigned the (current) value of *val */
+static unsigned long range_fill (Elem *first, unsigned long n, const Elem *val)
+{
+  Elem *last = first + n;
+  __CPROVER_assert (__CPROVER_w_ok (first, n << ESZ_LOG2), "[C03,C12,C13] fill writes outside the elements' storage");
+  req_storage_r (val);
+#define RF_LIVE(i) REQ_LIVE_RANGE1 (i, first, last) __CPROVER_assert (!(val == WP[i] && RAW (i)), "[C03] fill reads a value from storage that holds no live element");
+  FORALLW (RF_LIVE)
+  if (n != 0) used_kinds |= K_ASSIGN_COPY;
+  _Bool threw; unsigned long done = pick_done (n, ASSIGN_COPY_MAY_THROW, &threw);
+  int v = nondet_value ();
+  if (val == WP[0]) v = WS[0]; if (val == WP[1]) v = WS[1]; if (val == WP[2]) v = WS[2];
+  /* if *val is itself inside the filled range its value is first overwritten by itself: unchanged */
+#define RF_NEW(i) \
+  if (IN_PTRS (WP[i], first, last) && IDX (WP[i], first) < done) WS[i] = v; \
+  else if (threw && IN_PTRS (WP[i], first, last) && IDX (WP[i], first) == done) WS[i] = S_MF;
+  FORALLW (RF_NEW)
+  if (threw) THROW (EXC_ELEMENT);
+  return done;
+}
+
+void env_fill__pE_pE_pcE (Elem *first, Elem *last, const Elem *val)
+{
+  REQ_RANGE (first, last, "std::fill");
+  range_fill (first, DIVESZ (OFF (last) - OFF (first)), val);
+}
+
+Elem *env_fill_n__pE_ul_pcE (Elem *first, unsigned long n, const Elem *val)
+{
+  return first + range_fill (first, n, val);
+}
+
+Elem *env_swap_ranges__pE_pE_pE (Elem *first, Elem *last, Elem *first2)
+{
+  REQ_RANGE (first, last, "std::swap_ranges");
+  unsigned long n = DIVESZ (OFF (last) - OFF (first));
+  Elem *last2 = first2 + n;
+  __CPROVER_assert (__CPROVER_w_ok (first, n << ESZ_LOG2) && __CPROVER_w_ok (first2, n << ESZ_LOG2), "[C03,C13] swap_ranges touches memory outside the elements' storage");
+  __CPROVER_assert (!SAMEOBJ (first, first2) || OFF (last) <= OFF (first2) || OFF (last2) <= OFF (first), "[C03] swap_ranges: overlapping ranges");
+#define SR_LIVE(i) REQ_LIVE_RANGE1 (i, first, last) REQ_LIVE_RANGE1 (i, first2, last2)
+  FORALLW (SR_LIVE)
+  if (n != 0) used_kinds |= K_SWAP;
+  _Bool threw; unsigned long done = pick_done (n, SWAP_MAY_THROW, &threw);
+  int o0 = WS[0], o1 = WS[1], o2 = WS[2];
+#define SR_NEW(i) \
+  if (IN_PTRS (WP[i], first, last) && IDX (WP[i], first) < done) \
+    { int v = nondet_value (); unsigned long k = IDX (WP[i], first); \
+      if (WP[0] == first2 + k) v = o0; if (WP[1] == first2 + k) v = o1; if (WP[2] == first2 + k) v = o2; WS[i] = v; } \
+  else if (IN_PTRS (WP[i], first2, last2) && IDX (WP[i], first2) < done) \
+    { int v = nondet_value (); unsigned long k = IDX (WP[i], first2); \
+      if (WP[0] == first + k) v = o0; if (WP[1] == first + k) v = o1; if (WP[2] == first + k) v = o2; WS[i] = v; } \
+  else if (threw && ((IN_PTRS (WP[i], first, last) && IDX (WP[i], first) == done) || (IN_PTRS (WP[i], first2, last2) && IDX (WP[i], first2) == done))) WS[i] = S_MF;
+  FORALLW (SR_NEW)
+  if (threw) THROW (EXC_ELEMENT);
+  return first2 + done;
+}
